@@ -152,7 +152,7 @@ def run(ctx):
             for bias in BIAS:
                 combos = [("TORUS", 1, 1, None, (True,) * D), (None, 1, 1, None, (True, False, True)[:D])]
                 if th or si in (1, 2):
-                    combos += [("SAME", 1, 2, None, (False,) * D), ("VALID", 2, 1, None, (True,) * D), ([[1, 1]] * D, 1, 1, [2] * D, (True,) * D), (None, 1, 1, None, (False,) * D)]
+                    combos += [("SAME", 1, 2, None, (False,) * D), ("SAME", 2, 1, None, (False,) * D), ("VALID", 2, 1, None, (True,) * D), ([[1, 1]] * D, 1, 1, [2] * D, (True,) * D), (None, 1, 1, None, (False,) * D)]
                 if not th and bias in (False, "mean") and si > 2:
                     combos = combos[:1]
                 for padding, stride, rd, ld, flags in combos:
